@@ -31,3 +31,43 @@ func HNameInvT(kind int, idx int) {
 	}
 	vCover("checked")
 }
+
+// HUrlCaseT (C11): a URL attribute whose scheme is written with character references; two independent case
+// assignments (scheme letters, hex digits, the x of &#x) must get the same verdict.
+func HUrlCaseT(sch int, form int, mixMask int) {
+	scheme := vSchemes[sch]
+	v1, v2 := "", ""
+	for i := 0; i < len(scheme); i++ {
+		f := 0
+		if mixMask&(1<<uint(i)) != 0 {
+			f = form
+		}
+		c := scheme[i]
+		if f == 0 {
+			v1 += vWord(scheme[i : i+1])
+			v2 += vWord(scheme[i : i+1])
+			continue
+		}
+		// encode the lower-case and the upper-case letter code; hex digit case free and independent on both sides
+		v1 += vEncFixed(c, f)
+		v2 += vEncFixed(c, f)
+	}
+	a := IsXSS("<a href=\"" + v1 + "x\">")
+	b := IsXSS("<a href=\"" + v2 + "x\">")
+	vAssert(a == b, "case of letters and hex digits in an encoded URL scheme does not change the verdict")
+	vCover("checked")
+}
+
+// vEncFixed: c as &#xHH; (form 3) or &#xHH (form 4) with free case of the hex letters and of the x; the encoded
+// code point is that of c in a free letter case.
+func vEncFixed(c byte, form int) string {
+	b := c
+	if (c >= 'a' && c <= 'z') || (c >= 'A' && c <= 'Z') {
+		b = vLetter(c)
+	}
+	s := "&#" + vB(vByteIn("xX")) + vB(vHexDigit(b>>4)) + vB(vHexDigit(b&15))
+	if form == 3 {
+		s += ";"
+	}
+	return s
+}
